@@ -19,6 +19,7 @@ CHECKER = "./bin/check C08 (pyvc on esr/generation/generator.py::aifeyn_complexi
 
 
 def check(run):
+    D.lemma_library(run)
     tier = run.tier
     st, failed, eng = D.verify_function(run, "generation/generator.py", "aifeyn_complexity", C.aifeyn_contract)
     can = D.canary(run, "generation/generator.py", "aifeyn_complexity", C.aifeyn_contract)
